@@ -273,6 +273,10 @@ class APIConnection:
         Safe to call multiple times.
         """
         if self.connection_state is CONNECTION_STATE_CLOSED:
+            # A connect phase that was still running when the connection
+            # was closed may have acquired the socket or the frame helper
+            # afterwards, make sure they are released as well
+            self._release_resources()
             return
         was_connected = self.is_connected
         self._set_connection_state(CONNECTION_STATE_CLOSED)
@@ -291,6 +295,14 @@ class APIConnection:
         self._set_start_connect_future()
         self._set_finish_connect_future()
 
+        self._release_resources()
+
+        if (on_stop := self.on_stop) is not None and was_connected:
+            self.on_stop = None
+            on_stop(self._expected_disconnect)
+
+    def _release_resources(self) -> None:
+        """Close the frame helper and the socket and cancel the keep alive timers."""
         if self._frame_helper is not None:
             self._frame_helper.close()
             self._frame_helper = None
@@ -304,10 +316,6 @@ class APIConnection:
         if self._ping_timer is not None:
             self._ping_timer.cancel()
             self._ping_timer = None
-
-        if (on_stop := self.on_stop) is not None and was_connected:
-            self.on_stop = None
-            on_stop(self._expected_disconnect)
 
     def set_debug(self, enable: bool) -> None:
         """Enable or disable debug logging."""
@@ -466,6 +474,10 @@ class APIConnection:
             raise HandshakeAPIError(f"Handshake failed: {err}") from err
         finally:
             handshake_handle.cancel()
+        if self.connection_state is CONNECTION_STATE_CLOSED:
+            # The connection was closed by a frame that arrived together
+            # with the end of the handshake, closed is final
+            raise ConnectionInterruptedError()
         self._set_connection_state(CONNECTION_STATE_HANDSHAKE_COMPLETE)
 
     async def _connect_hello_login(self, login: bool) -> None:
@@ -614,7 +626,20 @@ class APIConnection:
             raise self._wrap_fatal_connection_exception("starting", ex)
         finally:
             self._set_start_connect_future()
+        self._raise_if_closed_during_connect("starting")
         self._set_connection_state(CONNECTION_STATE_SOCKET_OPENED)
+
+    def _raise_if_closed_during_connect(self, action: str) -> None:
+        """Raise if the connection was closed while a connect phase completed.
+
+        A close that took effect must never be undone by a connect
+        phase that completes in the same event loop iteration.
+        """
+        if self.connection_state is CONNECTION_STATE_CLOSED:
+            self._cleanup()
+            raise self._wrap_fatal_connection_exception(
+                action, ConnectionInterruptedError()
+            )
 
     def _set_start_connect_future(self) -> None:
         if (
@@ -656,7 +681,6 @@ class APIConnection:
         await self._connect_init_frame_helper()
         self._register_internal_message_handlers()
         await self._connect_hello_login(login)
-        self._async_schedule_keep_alive(self._loop.time())
 
     async def finish_connection(self, *, login: bool) -> None:
         """Finish the connection process.
@@ -681,7 +705,9 @@ class APIConnection:
             raise self._wrap_fatal_connection_exception("finishing", ex)
         finally:
             self._set_finish_connect_future()
+        self._raise_if_closed_during_connect("finishing")
         self._set_connection_state(CONNECTION_STATE_CONNECTED)
+        self._async_schedule_keep_alive(self._loop.time())
 
     def _set_finish_connect_future(self) -> None:
         if (
